@@ -616,6 +616,90 @@ def _census(ctx, model):
                        f"normalises its own field '{name}'" if ok else
                        f"{n.name}.__post_init__ writes '{name}', which is not one "
                        f"of its declared fields {n.field_names}")
+    _unhashable_fields_normalised(ctx, model, nodes)
+
+
+IMMUTABLE_CTORS = {"immutabledict", "tuple", "frozenset", "frozendict", "Map"}
+
+
+def _unhashable_fields_normalised(ctx, model, nodes):
+    """a declared field whose annotation admits an unhashable container (a
+    mapping) is part of the generated hash: on every path out of __post_init__
+    the field has either answered hash() without raising, is known to be of an
+    immutable class, or has been replaced by an immutable copy"""
+    from ..cfg import paths
+    from ..model import CHILD_MAP
+    n_f = 0
+    for n in nodes:
+        for f, kind, ann in n.fields:
+            head = ann.replace(" ", "").split("[")[0].split(".")[-1]
+            if kind != CHILD_MAP and head not in (
+                    "Mapping", "dict", "list", "set", "Dict", "List", "Set",
+                    "MutableMapping"):
+                continue
+            n_f += 1
+            rid = f"P/post_init/{n.name}/unhashable-field-normalised:{f}"
+            pi = model.lookup(n.cls, "__post_init__")
+            if pi is None or pi.kind != "func":
+                ctx.ob(rid, False, n.cls.loc(),
+                       f"{n.name}.{f} is declared {ann} and nothing makes an "
+                       "unhashable value passed for it hashable: hash(node) raises")
+                continue
+            me = pi.node.args.args[0].arg
+            sf = f"{me}.{f}"
+            bad = None
+            for path in paths(pi.node, loop_mode="01"):
+                if path[-1][0] == "raise":
+                    continue
+                okp = False
+                for it in path:
+                    if it[0] == "stmt":
+                        for c in ast.walk(it[1]):
+                            if not isinstance(c, ast.Call):
+                                continue
+                            fn = ast.unparse(c.func)
+                            if fn == "hash" and len(c.args) == 1 and \
+                                    ast.unparse(c.args[0]) == sf:
+                                okp = True
+                            if fn in ("object.__setattr__", "setattr") and \
+                                    len(c.args) == 3 and \
+                                    ast.unparse(c.args[0]) == me and \
+                                    isinstance(c.args[1], ast.Constant) and \
+                                    c.args[1].value == f:
+                                v = c.args[2]
+                                if isinstance(v, ast.Call) and ast.unparse(
+                                        v.func).split(".")[-1] in IMMUTABLE_CTORS:
+                                    okp = True
+                                else:
+                                    raise AnalysisError(
+                                        f"{n.name}.__post_init__ stores "
+                                        f"{ast.unparse(v)} into {f}: not a "
+                                        "constructor the rule knows as immutable")
+                    elif it[0] == "cond":
+                        t, pol = it[1], it[2]
+                        if isinstance(t, ast.UnaryOp) and isinstance(t.op, ast.Not):
+                            t, pol = t.operand, not pol
+                        if isinstance(t, ast.Call) and ast.unparse(t.func) == \
+                                "isinstance" and len(t.args) == 2 and \
+                                ast.unparse(t.args[0]) == sf and pol:
+                            cl = t.args[1].elts if isinstance(
+                                t.args[1], ast.Tuple) else [t.args[1]]
+                            if all(ast.unparse(x).split(".")[-1] in
+                                   IMMUTABLE_CTORS | {"Hashable"} for x in cl):
+                                okp = True
+                if not okp:
+                    bad = path
+                    break
+            ctx.ob(rid, bad is None, n.cls.loc(pi.node),
+                   f"every path out of {n.name}.__post_init__ leaves {f} hashable "
+                   "(probed with hash(), of an immutable class, or replaced by an "
+                   "immutable copy)" if bad is None else
+                   f"{n.name}.__post_init__ has a path on which {f} (declared "
+                   f"{ann}) is neither probed with hash() nor replaced by an "
+                   "immutable copy: an unhashable mapping that is not caught by "
+                   "the test on that path (types.MappingProxyType, a user Mapping "
+                   "class) stays in the field, and hash(node) / node == other raise")
+    ctx.floor("container-valued fields", n_f, 1)
 
 
 def _own_eq_hash_agree(ctx, n, c):
